@@ -86,6 +86,7 @@ def run(ctx):
     entries = {}     # entry type -> [description]
     guarded = []
     n_client = 0
+    table_decided = []
     seen = set()
 
     def visit(b, bi, s, chain):
@@ -144,9 +145,16 @@ def run(ctx):
         if origin(F, b, s) == "server" or not reaches_local_read(F, root):
             continue
         n_client += 1
+        if strip_generics(root) in ("d_engine_core::raft_role::role_state::RaftRoleState::push_client_cmd", "d_engine_core::raft_role::leader_state::LeaderState::determine_read_policy"):
+            # decided exactly by the routing tables C13-d / C13-b#table (which fail closed when it cannot be built): the table is
+            # insensitive to the order in which `policy matches ..` and the flag are tested, this guard analysis is not
+            table_decided.append(fkey(root))
+            continue
         visit(b, bi, s, [])
     ctx.floor("C13-a", n_client, 5, "dispatch points on a client-supplied read policy that reach a local read")
-    ctx.floor("C13-a", len(set(fkey(g[0]) for g in guarded)), 2, "client-policy dispatch points guarded by allow_client_override (positive control)")
+    if table_decided:
+        ctx.note("C13-a: %d dispatch point(s) in %s are decided by the exact routing table C13-d instead of the guard analysis" % (len(table_decided), sorted(set(table_decided))))
+    ctx.floor("C13-a", len(set(fkey(g[0]) for g in guarded) | set(table_decided)), 2, "client-policy dispatch points guarded by allow_client_override (positive control)")
     for root in sorted(set(g[0] for g in guarded)):
         g = [x for x in guarded if x[0] == root][0]
         ctx.ok("C13-a", "%s#client-policy-dispatch" % fkey(root), "client policy honoured only under allow_client_override == true"
@@ -170,14 +178,7 @@ def run(ctx):
         ctx.floor("C13-b", len(aggs), 3, "policy constants returned by determine_read_policy")
         ctx.check("C13-b", "%s#default" % fkey(drp), ret.has_field("ReadConsistencyConfig", "default_policy"), "server default is a possible result",
                   "determine_read_policy never returns ReadConsistencyConfig.default_policy", "%s:%s" % (drp.file, drp.line))
-        for (bi, si, st) in aggs:
-            v = st["rv"]["v"]
-            okf, wit, _ = guarded_by(drp, bi, lambda c: flag_true(F, c), conds)
-            okv, wit2, _ = guarded_by(drp, bi, lambda c: c.kind == "discr" and c.variants == {v} and strip_generics(c.adt or "").endswith(POLICY)
-                                      and cond_reads_field(F, c, "ClientReadRequest", "consistency_policy"), conds)
-            ctx.check("C13-b", "%s#returns:%s" % (fkey(drp), v), okf and okv, "returned only when the override flag is true and the client asked for exactly %s" % v,
-                      "determine_read_policy can return the constant %s %s" % (v, "with allow_client_override == false (server default ignored)" if not okf else
-                                                                                 "for a different client policy"), loc(drp, bi), (wit or wit2) and bpath(drp, wit or wit2))
+        leader_policy_table(ctx, drp)
     dflt = ctx.anchor(F.fn, "d_engine_core::raft_role::role_state::RaftRoleState::push_client_cmd")
     if dflt:
         conds = edge_conditions(dflt)
@@ -224,3 +225,122 @@ def run(ctx):
     ctx.check("C13-c", "RaftRoleState::push_client_cmd#overrides", impls == ["LeaderState"],
               "only LeaderState overrides push_client_cmd; the other roles use the checked default",
               "push_client_cmd is overridden by %s: a third routing implementation exists that these rules do not cover" % impls)
+
+
+# ---------------------------------------------------------------------------------------------- C13-d
+_run_abc = run
+
+
+def run(ctx):
+    _run_abc(ctx)
+    non_leader_routing_table(ctx)
+
+
+def non_leader_routing_table(ctx):
+    """C13-d exact routing table of the non-leader push_client_cmd: over every combination of (command kind,
+    client policy absent / EventualConsistency / LeaseRead / LinearizableRead, allow_client_override, server
+    default) the command is served from the local state machine iff it is a Read whose EFFECTIVE policy is
+    EventualConsistency, where effective = client's policy if present and the override flag is true, else the
+    server default; every other combination is answered with an error and reads nothing. An explicit strong
+    policy that silently falls back to an Eventual server default is a stale read answered as a strong one."""
+    from . import common as C
+    from .. import pathsym
+    F = ctx.F
+    dflt = F.fn("d_engine_core::raft_role::role_state::RaftRoleState::push_client_cmd")
+    if not dflt:
+        return
+    mb = F.main_body(dflt)
+    paths = C.table_of(ctx, "C13-d", mb, "non-leader push_client_cmd")
+    if not paths:
+        return
+    tb0 = pathsym.Table(paths)
+    is_f = lambda name: (lambda e: e[0] == "field" and (e[2] == name or e[2].split(".")[-1] == name))
+    v_cmd = C.pick(list(tb0.vars), lambda e: e[0] == "param" and "Read" in tb0.vars[e], "cmd")
+    v_cp = C.pick(list(tb0.vars), is_f("consistency_policy"), "request.consistency_policy")
+    v_in = C.pick(list(tb0.vars), lambda e: e[0] == "field" and e[2].split(".")[-1] == "0" and is_f("consistency_policy")(e[1]), "client policy")
+    v_def = C.pick(list(tb0.vars), is_f("default_policy"), "default_policy")
+    b_flag = C.pick(tb0.bools, is_f("allow_client_override"), "allow_client_override")
+    missing = [n for n, x in (("cmd", v_cmd), ("request.consistency_policy", v_cp), ("client policy variant", v_in), ("default_policy", v_def), ("allow_client_override", b_flag)) if x is None]
+    stray = [C.sym_show(q) for q in tb0.quant] + [C.sym_show(b) for b in tb0.bools if b != b_flag] + [C.sym_show(v) for v in tb0.vars if v not in (v_cmd, v_cp, v_in, v_def)]
+    key = "%s#routing-table" % fkey(dflt)
+    if missing or stray:
+        ctx.bad("C13-d", key, "UNRECOGNISED-FORM: non-leader routing does not depend on exactly (command, client policy, allow_client_override, default_policy): missing %s, unexpected %s"
+                % (missing, stray), "%s:%s" % (mb.file, mb.line))
+        return
+    memo = {}
+
+    def outcome(p, w):
+        local = any(_reaches_read(F, e[0], memo) for e in p.effects)
+        err = any(strip_generics(e[0]).endswith("Status::failed_precondition") for e in p.effects)
+        sent = any(re.search(r"MaybeCloneOneshotSender::send$", strip_generics(e[0])) for e in p.effects)
+        return "local" if local and not err else ("reject" if err and sent and not local else "other(local=%s,err=%s,sent=%s)" % (local, err, sent))
+
+    PU = {"EventualConsistency", "LeaseRead", "LinearizableRead"}
+    vu = {v_in: PU, v_def: PU, v_cp: {"Some", "None"}}
+
+    def spec(w):
+        if w.v[v_cmd] != "Read":
+            return "reject"
+        client = w.v[v_in] if w.v[v_cp] == "Some" else None
+        eff = client if (client is not None and w.b[b_flag]) else w.v[v_def]
+        return "local" if eff == "EventualConsistency" else "reject"
+    C.run_table(ctx, "C13-d", key, paths, outcome, spec, "%s:%s" % (mb.file, mb.line), variant_universe=vu,
+                what="served locally iff Read and effective policy (client's under allow_client_override, else server default) is EventualConsistency; otherwise rejected")
+
+
+def leader_policy_table(ctx, drp):
+    """C13-b exact table of LeaderState::determine_read_policy: the result is the client's own policy iff the request
+    carries one AND allow_client_override is true, the server default in every other combination"""
+    from . import common as C
+    from .. import pathsym
+    F = ctx.F
+    key = "%s#table" % fkey(drp)
+    paths = C.table_of(ctx, "C13-b", drp, "determine_read_policy")
+    if not paths:
+        return
+    tb0 = pathsym.Table(paths)
+    is_f = lambda name: (lambda e: e[0] == "field" and (e[2] == name or e[2].split(".")[-1] == name))
+    v_cp = C.pick(list(tb0.vars), is_f("consistency_policy"), "request.consistency_policy")
+    v_in = C.pick(list(tb0.vars), lambda e: e[0] == "field" and e[2].split(".")[-1] == "0" and is_f("consistency_policy")(e[1]), "client policy")
+    b_flag = C.pick(tb0.bools, is_f("allow_client_override"), "allow_client_override")
+    missing = [n for n, x in (("request.consistency_policy", v_cp), ("allow_client_override", b_flag)) if x is None]
+    stray = [C.sym_show(q) for q in tb0.quant] + [C.sym_show(b) for b in tb0.bools if b != b_flag] + [C.sym_show(v) for v in tb0.vars if v not in (v_cp, v_in)]
+    if missing or stray:
+        ctx.bad("C13-b", key, "UNRECOGNISED-FORM: determine_read_policy does not depend on exactly (client policy, allow_client_override): missing %s, unexpected %s" % (missing, stray),
+                "%s:%s" % (drp.file, drp.line))
+        return
+    PU = {"EventualConsistency", "LeaseRead", "LinearizableRead"}
+    cp_expr = v_cp
+
+    def outcome(p, w):
+        r = pathsym.strip_refs(p.ret) if p.ret is not None else None
+        if r is None:
+            return "diverges"
+        if r[0] == "agg":
+            return ("policy", r[2])
+        if pathsym.mentions(r, is_f("default_policy")):
+            return "default"
+        if pathsym.mentions(r, lambda e: e == cp_expr):
+            return ("policy", w.v.get(v_in)) if v_in is not None else "client"
+        return "other:%s" % C.sym_show(r)
+
+    def spec(w):
+        if w.v[v_cp] == "Some" and w.b[b_flag]:
+            return ("policy", w.v[v_in]) if v_in is not None else "client"
+        return "default"
+    vu = {v_cp: {"Some", "None"}}
+    if v_in is not None:
+        vu[v_in] = PU
+    C.run_table(ctx, "C13-b", key, paths, outcome, spec, "%s:%s" % (drp.file, drp.line), variant_universe=vu,
+                what="leader's effective policy = client's policy iff present and allow_client_override, else the server default")
+
+
+def _reaches_read(F, callee, memo):
+    if callee not in memo:
+        k = strip_generics(callee)
+        if re.search(SM_READ, k):
+            memo[callee] = True
+        else:
+            tg = [callee] if callee in F.bodies else [d for (_s, d) in F.impls_of_method.get(callee, [])]
+            memo[callee] = any(F.fn_reaches(t, lambda x: re.search(SM_READ, strip_generics(x)) is not None, 4) for t in tg)
+    return memo[callee]
